@@ -5,20 +5,36 @@ From TLV Require Import Base.Ops Base.Tensor Base.RSum Model.Svd Proofs.SvdProof
 Import ListNotations.
 Local Open Scope R_scope.
 
-(* what the dispatch does when there is neither a mask nor the non_negative option *)
-Lemma interface_unfold (f : nat -> list (list R) -> triple R) meth d2 Ml n flip ub iters sq eps :
-  meth <> MUnknown ->
-  svd_interface Rops f meth d2 Ml n flip ub None None iters sq eps =
-  Ok (let '(U0, S0, V0) := f 0%nat Ml in
+(* what svd_interface does when there is neither a mask nor the non_negative option: the function selected by the
+   dispatch table is run once on the matrix and its answer is sign-flipped iff flip_sign *)
+Lemma interface_unfold (funs : fname -> nat -> list (list R) -> triple R) meth fn d2 Ml n flip ub iters sq eps :
+  dispatch meth = Some fn ->
+  svd_interface Rops funs meth d2 Ml n flip ub None None iters sq eps =
+  Ok (let '(U0, S0, V0) := funs fn 0%nat Ml in
       let '(U, V) := if flip then svd_flip Rops U0 V0 ub else (U0, V0) in (U, S0, V)).
 Proof.
-  intros Hm. unfold svd_interface.
-  destruct meth; try congruence; destruct (f 0%nat Ml) as [[U0 S0] V0];
-    (destruct flip; [destruct (svd_flip Rops U0 V0 ub) as [U V]|]; reflexivity).
+  intros Hm. unfold svd_interface. rewrite Hm. destruct (funs fn 0%nat Ml) as [[U0 S0] V0].
+  destruct flip; [destruct (svd_flip Rops U0 V0 ub) as [U V]|]; reflexivity.
 Qed.
-Lemma interface_unknown (f : nat -> list (list R) -> triple R) d2 Ml n flip ub nn mask iters sq eps :
-  svd_interface Rops f MUnknown d2 Ml n flip ub nn mask iters sq eps = Err.
+(* the dispatch table: which function a method name selects; an unknown name is rejected *)
+Lemma dispatch_table :
+  dispatch MTruncated = Some FTruncated /\ dispatch MSymeig = Some FSymeig /\ dispatch MRandomized = Some FRandomized /\
+  dispatch MCallable = Some FUser /\ dispatch MUnknown = None.
+Proof. repeat split. Qed.
+Lemma interface_unknown (funs : fname -> nat -> list (list R) -> triple R) d2 Ml n flip ub nn mask iters sq eps :
+  svd_interface Rops funs MUnknown d2 Ml n flip ub nn mask iters sq eps = Err.
 Proof. reflexivity. Qed.
+(* only the selected function is consulted: two function tables that agree on it give the same result *)
+Lemma interface_only_selected (funs funs' : fname -> nat -> list (list R) -> triple R) meth fn d2 Ml n flip ub nn mask iters sq eps :
+  dispatch meth = Some fn -> (forall c X, funs fn c X = funs' fn c X) ->
+  svd_interface Rops funs meth d2 Ml n flip ub nn mask iters sq eps = svd_interface Rops funs' meth d2 Ml n flip ub nn mask iters sq eps.
+Proof.
+  intros Hm E. unfold svd_interface. rewrite Hm. rewrite (E 0%nat Ml).
+  assert (L : forall it call M t, mask_loop Rops (funs fn) d2 (match mask with Some m => m | None => [] end) it call M t
+                               = mask_loop Rops (funs' fn) d2 (match mask with Some m => m | None => [] end) it call M t).
+  { induction it as [|it IH]; intros call M t; cbn [mask_loop]; [reflexivity|]. destruct t as [[U S0] V]. rewrite E. apply IH. }
+  destruct mask as [msk|]; [destruct n as [r|]|]; try reflexivity. cbn [mask_loop] in L. rewrite L. reflexivity.
+Qed.
 
 Lemma rect_ncols {A} r c (M : list (list A)) : rect r c M -> (0 < r)%nat -> ncols M = c.
 Proof.
@@ -28,18 +44,19 @@ Qed.
 Lemma svd_contract_shape d1 d2 Mf f (t : triple R) : svd_contract d1 d2 Mf f t -> shape_contract d1 d2 f t.
 Proof. destruct t as [[U0 S0] V0]. intros H. exact (proj1 H). Qed.
 
-Theorem interface_truncated_e2e (oracle : bool -> triple R) d1 d2 (Mf : nat -> nat -> R) (Ml : list (list R))
-    r flip ub iters sq eps U S V :
-  (forall f, svd_contract d1 d2 Mf f (oracle f)) ->
+Theorem interface_truncated_e2e (orc : list (list R) -> bool -> triple R) (funs : fname -> nat -> list (list R) -> triple R)
+    d1 d2 (Ml : list (list R)) r flip ub iters sq eps U S V :
+  (forall f, svd_contract d1 d2 (mg Ml) f (orc Ml f)) ->
+  (forall c X, funs FTruncated c X = truncated_svd (orc X) d1 d2 (Some r)) ->
   (1 <= r <= Nat.min d1 d2)%nat ->
-  svd_interface Rops (fun _ _ => truncated_svd oracle d1 d2 (Some r)) MTruncated d2 Ml (Some r) flip ub None None iters sq eps
-    = Ok (U, S, V) ->
-  S = firstn r (snd (fst (oracle false))) /\ nonneg_list S /\ nonincreasing S /\
+  svd_interface Rops funs MTruncated d2 Ml (Some r) flip ub None None iters sq eps = Ok (U, S, V) ->
+  S = firstn r (snd (fst (orc Ml false))) /\ nonneg_list S /\ nonincreasing S /\
   orthonormal_cols d1 r (mg U) /\ orthonormal_rows r d2 (mg V) /\
-  rsum d1 (fun i => rsum d2 (fun j => (Mf i j - recon U S V i j)^2))
-    = rsum (Nat.min d1 d2 - r) (fun t => (nth (r + t) (snd (fst (oracle false))) 0)^2).
+  rsum d1 (fun i => rsum d2 (fun j => (mg Ml i j - recon U S V i j)^2))
+    = rsum (Nat.min d1 d2 - r) (fun t => (nth (r + t) (snd (fst (orc Ml false))) 0)^2).
 Proof.
-  intros HC Hr E. rewrite interface_unfold in E by discriminate.
+  intros HC HF Hr E. rewrite (interface_unfold funs MTruncated FTruncated) in E by reflexivity. rewrite HF in E.
+  set (oracle := orc Ml) in *. set (Mf := mg Ml) in *.
   assert (K : n_kept d1 d2 (Some r) = r) by (rewrite n_kept_spec; lia).
   assert (FF : full_flag d1 d2 (Some r) = false) by (unfold full_flag; rewrite K; apply Nat.ltb_ge; lia).
   pose proof (truncated_shapes_documented R oracle d1 d2 r (fun f => svd_contract_shape _ _ _ _ _ (HC f)) ltac:(lia)) as SH.
@@ -105,19 +122,20 @@ Proof.
 Qed.
 
 (* ---------- end to end for EVERY n_eigenvecs (None, 0, > min(shape), > max(shape)) ---------- *)
-Theorem interface_truncated_e2e_gen (oracle : bool -> triple R) d1 d2 (Mf : nat -> nat -> R) (Ml : list (list R))
-    n flip ub iters sq eps U Sg V :
-  (forall f, svd_contract d1 d2 Mf f (oracle f)) -> (1 <= d1)%nat ->
-  svd_interface Rops (fun _ _ => truncated_svd oracle d1 d2 n) MTruncated d2 Ml n flip ub None None iters sq eps
-    = Ok (U, Sg, V) ->
+Theorem interface_truncated_e2e_gen (orc : list (list R) -> bool -> triple R) (funs : fname -> nat -> list (list R) -> triple R)
+    d1 d2 (Ml : list (list R)) n flip ub iters sq eps U Sg V :
+  (forall f, svd_contract d1 d2 (mg Ml) f (orc Ml f)) ->
+  (forall c X, funs FTruncated c X = truncated_svd (orc X) d1 d2 n) -> (1 <= d1)%nat ->
+  svd_interface Rops funs MTruncated d2 Ml n flip ub None None iters sq eps = Ok (U, Sg, V) ->
   let k := n_kept d1 d2 n in
-  let So := snd (fst (oracle (full_flag d1 d2 n))) in
+  let So := snd (fst (orc Ml (full_flag d1 d2 n))) in
   Sg = firstn k So /\ nonneg_list Sg /\ nonincreasing Sg /\
   orthonormal_cols d1 (Nat.min k d1) (mg U) /\ orthonormal_rows (Nat.min k d2) d2 (mg V) /\
-  rsum d1 (fun i => rsum d2 (fun j => (Mf i j - recon U Sg V i j)^2))
+  rsum d1 (fun i => rsum d2 (fun j => (mg Ml i j - recon U Sg V i j)^2))
     = rsum (Nat.min d1 d2 - k) (fun t => (nth (k + t) So 0)^2).
 Proof.
-  intros HC Hd1 E k So. rewrite interface_unfold in E by discriminate.
+  intros HC HF Hd1 E k So. rewrite (interface_unfold funs MTruncated FTruncated) in E by reflexivity. rewrite HF in E.
+  set (oracle := orc Ml) in *. set (Mf := mg Ml) in *.
   pose proof (truncated_shapes R oracle d1 d2 n (fun f => svd_contract_shape _ _ _ _ _ (HC f))) as SH.
   pose proof (truncated_S_prefix R oracle d1 d2 n) as SP.
   pose proof (truncated_S_ordered oracle d1 d2 n) as SO.
@@ -159,20 +177,22 @@ Hypothesis eckart_young : forall (s : list R) (U V : list (list R)),
   forall k B, rank_le k B ->
   rsum (Nat.min d1 d2 - k) (fun t => (nth (k + t) s 0)^2) <= frob2 (fun i j => Mf i j - B i j).
 
-Theorem interface_best_approx_partial (oracle : bool -> triple R) (Ml : list (list R)) r flip ub iters sq eps U Sg V :
-  (forall f, svd_contract d1 d2 Mf f (oracle f)) -> (1 <= r <= Nat.min d1 d2)%nat ->
-  svd_interface Rops (fun _ _ => truncated_svd oracle d1 d2 (Some r)) MTruncated d2 Ml (Some r) flip ub None None iters sq eps
-    = Ok (U, Sg, V) ->
+Theorem interface_best_approx_partial (orc : list (list R) -> bool -> triple R) (funs : fname -> nat -> list (list R) -> triple R)
+    (Ml : list (list R)) r flip ub iters sq eps U Sg V :
+  Mf = mg Ml ->
+  (forall f, svd_contract d1 d2 (mg Ml) f (orc Ml f)) ->
+  (forall c X, funs FTruncated c X = truncated_svd (orc X) d1 d2 (Some r)) -> (1 <= r <= Nat.min d1 d2)%nat ->
+  svd_interface Rops funs MTruncated d2 Ml (Some r) flip ub None None iters sq eps = Ok (U, Sg, V) ->
   rank_le r (recon U Sg V) /\
   forall B, rank_le r B -> frob2 (fun i j => Mf i j - recon U Sg V i j) <= frob2 (fun i j => Mf i j - B i j).
 Proof.
-  intros HC Hr E. destruct (interface_truncated_e2e oracle d1 d2 Mf Ml r flip ub iters sq eps U Sg V HC Hr E) as (ES & _ & _ & _ & _ & EE).
+  intros EM HC HF Hr E. destruct (interface_truncated_e2e orc funs d1 d2 Ml r flip ub iters sq eps U Sg V HC HF Hr E) as (ES & _ & _ & _ & _ & EE).
   assert (LS : length Sg = r).
-  { rewrite ES, firstn_length. specialize (HC false). destruct (oracle false) as [[U0 S0] V0]. cbn [fst snd].
+  { rewrite ES, firstn_length. specialize (HC false). destruct (orc Ml false) as [[U0 S0] V0]. cbn [fst snd].
     destruct HC as ((_ & L & _) & _). rewrite L. lia. }
   split.
   - exists (fun i t => mg U i t * nth t Sg 0), (mg V). intros i j _ _. unfold recon. now rewrite LS.
-  - intros B HB. unfold frob2 at 1. rewrite EE. specialize (HC false).
-    destruct (oracle false) as [[U0 S0] V0] eqn:EO. cbn [fst snd]. now apply (eckart_young S0 U0 V0 HC r B HB).
+  - intros B HB. unfold frob2 at 1. rewrite EM. rewrite EE. specialize (HC false). rewrite <- EM in HC.
+    destruct (orc Ml false) as [[U0 S0] V0] eqn:EO. cbn [fst snd]. rewrite <- EM. now apply (eckart_young S0 U0 V0 HC r B HB).
 Qed.
 End EckartYoung.
